@@ -15,7 +15,7 @@ func init() {
 			"D2 size limit — every dispatch is reachable only when the limit is off or the size obtained from the lazy Stat of the current path (following symlinks, via fileSize(wc.fileAPI)) was compared with '> limit' and passed; the memoised size only ever carries a value that passed; " +
 			"D3 cancellation — ctx.Err()!=nil is tested before any per-file work in the callback and before each plugin call inside the loops of standalone.Run and detector.Run, and its true edge returns ctx.Err(); " +
 			"D4 image byte limit — bytes written for a layer file come from io.LimitReader(_, MaxFileBytes), a node is returned only when copied < MaxFileBytes (>=, so 'at the limit' is rejected), the limit error makes the caller skip the entry; unpack skips entries with Size > max before reading. " +
-			"NOT decided: counts over concrete trees, behaviour at a cancellation inside the k-th extraction (schedules).",
+			"Added in round 2: D1 additionally: the visit counter is written only by its increment (never reset per scan root). NOT decided: counts over concrete trees, behaviour at a cancellation inside the k-th extraction (schedules).",
 		Run: runC10,
 		Controls: []Mutant{
 			{Name: "inode-geq", File: "extractor/filesystem/filesystem.go", Old: "wc.maxInodes > 0 && wc.inodesVisited > wc.maxInodes", New: "wc.maxInodes > 0 && wc.inodesVisited >= wc.maxInodes", Rule: "D1-inodes", Site: "comparison"},
